@@ -22,6 +22,10 @@ TABLES_ASSUME = [
     "the table model's contract: a map is a finite partial function, a set is a finite set, iteration order = insertion order (remove moves the last entry into the hole); validated against std's tables by /verif/shims/hashbrown/tests/differential.rs",
     "counterexamples are replayed with `cargo kani playback` of the same harness crate, i.e. against the table *model*, not against real hashbrown",
 ]
+HEAP_STUBS = [
+    "std::alloc::alloc = zeroed block of the next size class (8/32/128/512 bytes; larger requests fail as 'bound too small'): avoids heap objects of symbolic size",
+    "alloc::alloc::dealloc_nonnull = no-op (blocks are never returned; use-after-free is outside the properties)",
+]
 TABLES_FUNCS_C19 = [
     "ascent::internal::{RelIndexWrite,RelIndexMerge,RelFullIndexWrite,RelFullIndexRead} for RelIndexType1, RelFullIndexType (HashBrownRelFullIndexType), LatticeIndexType, RelNoIndexType",
     "ascent::rel_index_read::{RelIndexRead,RelIndexReadAll} for the same types and RelIndexCombined",
@@ -72,6 +76,21 @@ PROPS = {
             "serial index types only; the concurrent (c_*) types, freeze/unfreeze and thread interleavings are outside the claim",
             "RelFullIndexType with a key present in both delta and total: the merged value is asserted to be one of the two (which one depends on the relative sizes); generated code never creates that situation with different values",
             "RelIndexType1 merge: at most one entry in delta and one in total in the quick tier, so the size-based swap and the per-key vector swap are exercised only in their 'equal' outcome there (the 2-against-1 harnesses are in the thorough tier)",
+        ],
+    },
+    "C18": {
+        "crate": TABLES, "target": "kani-tables",
+        "patterns": {"quick": ["c18::quick::"], "thorough": ["c18::"]},
+        "min_harnesses": {"quick": 2, "thorough": 7},
+        "jobs": 8, "timeout": {"quick": 1500, "thorough": 3000},
+        "extra": ["-Z", "stubbing"], "env": {"RUSTFLAGS": "--cfg ascent_verif"},
+        "level": "model_checking",
+        "functions": ["ascent_byods_rels::uf::UnionFind::{add, find_item, find, union, union_add, len, is_empty} and uf::elems::{Elems::find, Elem::union_by_rank}",
+                      "thorough only (no verdict when measured): operation sequences over UnionFind; ascent_byods_rels::trrel_union_find::TrRelUnionFind::{add, contains, set_of, rev_set_of, iter_all, count_exact, assert_disjoint_invariant, assert_set_connections_dominant_sets}"],
+        "bounds": "UnionFind<u8> over 3 elements: (a) two `add`s with symbolic operands, (b) one `union_add` with symbolic operands; afterwards every element / pair is queried. Longer histories (2..4 operations of symbolic kind), and TrRelUnionFind (1..3 `add`s over 2..3 elements) are in the thorough tier and did not produce a verdict when measured (CBMC out of memory at 14 GB resp. no verdict within 600 s). union_find::EqRel is in a private module and is not reachable from a harness crate",
+        "stubs": TABLES_STUBS + HEAP_STUBS,
+        "assumptions": COMMON_ASSUME + TABLES_ASSUME + [
+            "the quick tier covers single-operation histories only; the property's 'any history' quantifier is NOT discharged beyond that",
         ],
     },
 }
